@@ -86,6 +86,43 @@ CLAIMS = {
          "rowan/logos as observed. Known finding: stack overflow (abort, no tree) at ~10^5 nested '(' or '!'.",
     technique="Lean 4 proof (induction over token loop / event list, Brzozowski-derivative correctness, UTF-8 arithmetic) + table translator + "
               "differential correspondence with lexer::lex and Parser::build_tree + exhaustive small-string search"),
+ "C13": dict(
+    category="proof",
+    text="Lean theorems over a model of discover_packages / topo_sort_packages / package-id assignment / concatenation order in which every "
+         "iteration over a set of package names is a parameter: plan_enum_invariant (for all package layouts and all pairs of enumerations of "
+         "every import set and of the package map's keys: same discovered packages in the same order, same ids, same type-check order, same "
+         "concatenation order, or the same error), discover_enum_invariant, topo_enum_invariant, ids_enum_invariant, link_enum_invariant, "
+         "ids_injective, discover_mem_iff_reach, discover_fuel_suffices; for the code before the fix (HashSet) the counter-examples "
+         "hash_discovery_order_varies / hash_reported_error_varies and hash_only_link_order_varies. imports_ordered re-checks on every run "
+         "that PackageUnit.imports is an ordered set (table regenerated from packages.rs). Tie: the real discover_packages + "
+         "topo_sort_packages (+ ids of a whole compile) on generated package directories and on raw graphs (all 3-package graphs) equal "
+         "the model's output. Everything after discovery (typer, passes, printers, artefact hashes) is NOT modelled: it is covered by the "
+         "differential oracle only — K-fold recompilation in one process (fresh hash keys, permuted directory creation) and in child "
+         "processes, comparing Go text, every stage dump, diagnostics, interface/core bytes and hashes, link results byte for byte.",
+    design_ref="§5 C13, §C13 — as built",
+    note="Trusted: Lean kernel; tools/extract.py gen_package_ids; error-message classification and the project generator in harness/src/c13.rs; "
+         "SipHash-128 digests for the cross-process comparison; String order in Rust = Lean. tools/hashiter.py (source scan of HashMap/HashSet "
+         "iterations, heuristic) is auxiliary. Three defects found and fixed (known_findings.json).",
+    technique="Lean 4 proof (sorted-set uniqueness, DFS invariants) + differential correspondence + K-fold / cross-process byte comparison"),
+ "C16": dict(
+    category="proof",
+    text="Lean theorems over a model of the isolation and coherence decision logic: package_allowed_iff and visible_iff (a qualified path "
+         "P::x resolves from a file of Q iff P = Q or P = Builtin or P is imported by that file, given the item exists), invisible_unresolved, "
+         "not_imported_reported, use_accepted_visible (no reference form is accepted unless its target package is visible), "
+         "accepted_package_isolated (impls name visible packages only and obey the orphan rule), topo_ok_iff_acyclic / topo_order_correct / "
+         "topo_error_truthful (the DFS of topo_sort_packages succeeds iff the import graph is acyclic and complete; its order is a permutation "
+         "with every import earlier; its cycle / missing errors are true), cycle_missing_reported (type checking is reached only if every "
+         "reachable package directory exists and declares its own name and there is no cycle), coherent (accepted implies at most one impl per "
+         "(trait, type)), order_independent (acceptance is invariant under any permutation of the type-check/merge order), enum_independent, "
+         "merge_check_redundant (orphan rule + visibility + acyclicity already exclude cross-package duplicates). Tie: generated worlds "
+         "(layouts with cycles, diamonds, missing, misdeclared, inconsistent directories x placements of 8 reference forms and of impls by "
+         "trait owner x type owner, in files with and without imports) compiled by the real pipeline::compile; accept/reject, graph error and "
+         "set of diagnostic classes must equal the model's; a declarative oracle (package-level, from the property text) demands rejection "
+         "independently of the model; three permuted copies per world must agree.",
+    design_ref="§5 C16, §C16 — as built",
+    note="Trusted: Lean kernel; source templates, message classification in harness/src/c16.rs; the declarative oracle in tools/props/c16.py. "
+         "The typer's inference and trait-method dispatch are not modelled: a use is a reference form to a standard item. No defect found.",
+    technique="Lean 4 proof (decision logic, DFS correctness, fold invariants) + differential correspondence on generated package worlds"),
  "C15": dict(
     category="proof",
     text="Lean theorems over a state machine of the artefact protocol (sources, .interface and .core files, ops edit/check/build/link/"
